@@ -268,47 +268,55 @@ func c03Assumption(c *Check) {
 	}
 	maddyOK := false
 	if r := c.In(smtpEndpRel, "Endpoint", "NewSession"); r != nil {
-		// on every success return a Logout was called on the connection's previous session (conn.Session())
-		var logouts []Pt
-		for _, pt := range r.F.Points() {
-			for _, call := range callsAt(pt.Node()) {
-				if methodName(call) != "Logout" {
-					continue
-				}
-				o := recvObj(r.Info, call)
-				if o == nil {
-					continue
-				}
-				def, _ := localDef(r.Info, r.FI.Decl.Body, o)
-				prevFromConn := false
-				ast.Inspect(def, func(n ast.Node) bool {
-					if cc, ok := n.(*ast.CallExpr); ok && methodName(cc) == "Session" {
-						prevFromConn = true
+		// a Logout is called on the connection's previous session (conn.Session()), in NewSession itself or in a
+		// helper of the package it calls
+		var hasLogoutOfPrev func(fi *FuncInfo, depth int) bool
+		hasLogoutOfPrev = func(fi *FuncInfo, depth int) bool {
+			info := fi.Info()
+			found := false
+			for _, call := range callsIn(fi.Decl.Body) {
+				if methodName(call) == "Logout" {
+					o := recvObj(info, call)
+					if o == nil {
+						continue
 					}
-					return true
-				})
-				// also `if prev, ok := conn.Session().(*Session); ok { prev.Logout() }`
-				ast.Inspect(r.FI.Decl.Body, func(n ast.Node) bool {
-					if as, ok := n.(*ast.AssignStmt); ok {
-						for _, l := range as.Lhs {
-							if objOf(r.Info, l) == o {
-								ast.Inspect(as, func(x ast.Node) bool {
+					ast.Inspect(fi.Decl.Body, func(n ast.Node) bool {
+						var lhs []ast.Expr
+						var rhs ast.Node
+						switch x := n.(type) {
+						case *ast.AssignStmt:
+							lhs, rhs = x.Lhs, x
+						case *ast.ValueSpec:
+							for _, nm := range x.Names {
+								lhs = append(lhs, nm)
+							}
+							rhs = x
+						}
+						for _, l := range lhs {
+							if objOf(info, l) == o || (func() bool { id, ok := l.(*ast.Ident); return ok && info.Defs[id] == o })() {
+								ast.Inspect(rhs, func(x ast.Node) bool {
 									if cc, ok := x.(*ast.CallExpr); ok && methodName(cc) == "Session" {
-										prevFromConn = true
+										found = true
 									}
 									return true
 								})
 							}
 						}
+						return true
+					})
+					continue
+				}
+				if depth < 2 {
+					if fn := callee(info, call); fn != nil && fn.Pkg() == fi.Obj.Pkg() {
+						if d := c.P.DeclOf(fn); d != nil && d.Decl.Body != nil && d.Obj != fi.Obj && hasLogoutOfPrev(d, depth+1) {
+							found = true
+						}
 					}
-					return true
-				})
-				if prevFromConn {
-					logouts = append(logouts, pt)
 				}
 			}
+			return found
 		}
-		maddyOK = len(logouts) > 0
+		maddyOK = hasLogoutOfPrev(r.FI, 0)
 	}
 	c.Hold("A1", "session-replaced-is-logged-out", token.NoPos, libOK || maddyOK,
 		"the SMTP library replaces the session on a repeated EHLO/LHLO (in "+libWhere+") without calling Logout or Reset on the old one, and maddy's NewSession does not compensate: a transaction that is open at that moment is never aborted – its delivery stays open and its limit permits are never returned")
